@@ -746,6 +746,34 @@ func TestEnumSmall(t *testing.T) {
 			}
 		}
 		rec(nil, 0, 0)
+		// the same inside containers (one token less deep)
+		cmax := max - 1
+		for _, cx := range [][2]string{{"[", "]"}, {"{", "}"}, {"{k:", "}"}, {"[1 ", ""}, {"{k:1 ", "}"}} {
+			var recx func(mid []byte, depth int)
+			recx = func(mid []byte, depth int) {
+				if depth > 0 {
+					in := append(append([]byte(cx[0]), mid...), cx[1]...)
+					for _, lang := range langs {
+						for _, mode := range []string{"single", "cb"} {
+							for _, sz := range sizes {
+								vrt.Eval(suite, "agree", Case{Input: in, Chunk: gx.Chunking{Sizes: []int{sz}}, Mode: mode, Lang: lang, Enum: true}, Run)
+								n++
+							}
+						}
+					}
+				}
+				if depth == cmax {
+					return
+				}
+				for i, tok := range enumTokens {
+					if depth == 0 && i%sn != si {
+						continue
+					}
+					recx(append(append([]byte(nil), mid...), tok...), depth+1)
+				}
+			}
+			recx(nil, 0)
+		}
 		mu.Lock()
 		total += n
 		mu.Unlock()
